@@ -94,189 +94,217 @@ pub fn ensure_unique_type_paths(types: &mut PortableRegistry) -> Result<(), Type
 ///
 /// The basic algorithm here is:
 /// - If type IDs match, they are the same.
-/// - If type IDs can be explained by the same generic parameter, they are the same.
-/// - If type paths or generic names don't match, they are different.
+/// - If type paths or the number of generic parameters don't match, they are different.
 /// - If the corresponding TypeDefs (shape of type) is different, they are different.
-/// - Else, recurse through any contained type IDs and start from the top.
+/// - Else, go through the types of the fields. The generic parameters of the two types are the only
+///   ones that can explain a difference here, because only they become generic parameters of the type
+///   we generate. We find their uses the same way codegen does: by type ID, and for the type of a
+///   field itself also by its name. A generic parameter that is used in one type has to be used in
+///   the same place in the other type. Two types with a path that are used in the same place have to
+///   be equal in the sense of this function, and their generic parameters have to line up, too.
 pub(crate) fn types_equal(a: u32, b: u32, types: &PortableRegistry) -> bool {
-    let mut a_visited = HashSet::new();
-    let mut b_visited = HashSet::new();
-    types_equal_inner(
-        a,
-        &GenericsList::empty(),
-        &mut a_visited,
-        b,
-        &GenericsList::empty(),
-        &mut b_visited,
-        types,
-    )
+    types_equal_inner(a, b, types, &mut HashSet::new())
 }
 
 // Panics if the given type ID is not found in the registry.
 fn types_equal_inner(
     a: u32,
-    a_parent_params: &GenericsList,
-    a_visited: &mut HashSet<u32>,
     b: u32,
-    b_parent_params: &GenericsList,
-    b_visited: &mut HashSet<u32>,
     types: &PortableRegistry,
+    visited: &mut HashSet<(u32, u32)>,
 ) -> bool {
     // IDs are the same; types must be identical!
     if a == b {
         return true;
     }
 
-    // Make note of these IDs in case we recurse and see them again.
-    let seen_a = !a_visited.insert(a);
-    let seen_b = !b_visited.insert(b);
-
-    // One type is recursive and the other isn't; they are different.
-    // If neither type is recursive, we keep checking.
-    if seen_a != seen_b {
-        return false;
-    }
-
-    // Both types are recursive, and they look the same based on the above,
-    // so assume all is well, since we've already checked other things in prev recursion.
-    if seen_a && seen_b {
+    // We are already comparing exactly this pair of types further up (recursive types);
+    // assume all is well, since everything else is checked in that earlier call.
+    if !visited.insert((a, b)) {
         return true;
     }
 
-    // Make note of whether these IDs (might) correspond to any specific generic.
-    let a_generic_idx = a_parent_params.index_for_type_id(a);
-    let b_generic_idx = b_parent_params.index_for_type_id(b);
-
     let a_ty = types.resolve(a).expect("type a should exist in registry");
     let b_ty = types.resolve(b).expect("type b should exist in registry");
-
-    // Capture a few variables to avoid some repetition later when we recurse.
-    let mut types_equal_recurse =
-        |a: u32, a_params: &GenericsList, b: u32, b_params: &GenericsList| -> bool {
-            types_equal_inner(a, a_params, a_visited, b, b_params, b_visited, types)
-        };
-
-    // We'll lazily extend our type params only if the shapes match.
-    let calc_params = || {
-        let a_params = a_parent_params.extend(&a_ty.type_params);
-        let b_params = b_parent_params.extend(&b_ty.type_params);
-        (a_params, b_params)
-    };
-
-    // If both IDs map to same generic param, then we'll assume equal. If they don't
-    // then we need to keep checking other properties (eg Vec<bool> and Vec<u8> will have
-    // different type IDs but may be the same type if the bool+u8 line up to generic params).
-    if let (Some(a_idx), Some(b_idx)) = (a_generic_idx, b_generic_idx) {
-        if a_idx == b_idx {
-            return true;
-        }
-    }
 
     // Paths differ; types won't be equal then!
     if a_ty.path.segments != b_ty.path.segments {
         return false;
     }
 
+    // Different number of generic params (or different ones skipped); one generated type
+    // cannot stand for both then.
+    if a_ty.type_params.len() != b_ty.type_params.len()
+        || a_ty
+            .type_params
+            .iter()
+            .zip(b_ty.type_params.iter())
+            .any(|(a, b)| a.ty.is_some() != b.ty.is_some())
+    {
+        return false;
+    }
+
+    let cx = EqContext {
+        a_params: GenericsList::empty().extend(&a_ty.type_params),
+        b_params: GenericsList::empty().extend(&b_ty.type_params),
+        types,
+    };
+
+    // The generic param that codegen uses for a field, if any: the type ID and,
+    // if known, the name of the field's type have to match.
+    fn generic_idx_of_field(field: &Field<PortableForm>, params: &GenericsList) -> Option<usize> {
+        match &field.type_name {
+            Some(type_name) => params.index_for_type_id_and_name(field.ty.id, type_name),
+            None => params.index_for_type_id(field.ty.id),
+        }
+    }
+
     #[rustfmt::skip]
-    let mut compare_fields = |
+    let compare_fields = |
         a: &Field<PortableForm>,
-        a_params: &GenericsList,
         b: &Field<PortableForm>,
-        b_params: &GenericsList
+        visited: &mut HashSet<(u32, u32)>
     | -> bool {
         if a.name != b.name {
             return false;
         }
 
-        // The type is wrapped in another type such as `Vec<T>` or
-        // marked as skipped with `#[scale_info(skip_type_params(T))]`
-        let ty_is_skipped_or_wrapped = a_params
-            .index_for_type_id(a.ty.id)
-            .zip(b_params.index_for_type_id(b.ty.id))
-            .is_none();
-
-        // Check that both type names are present or recurse in case of wrapped types
-        match (&a.type_name, &b.type_name) {
-            (Some(a_type_name), Some(b_type_name)) if !ty_is_skipped_or_wrapped => {
-                // check that both type names are present in Generic Params and have the same indexes
-                a_params
-                    .index_for_type_name(a_type_name)
-                    .zip(b_params.index_for_type_name(b_type_name))
-                    .is_some_and(|(a, b)| a == b)
-            }
-            _ => types_equal_recurse(a.ty.id, a_params, b.ty.id, b_params),
+        // Both fields have to be the same generic param, or else no generic param. The latter
+        // is the case if the type is wrapped in another type such as `Vec<T>`
+        // or marked as skipped with `#[scale_info(skip_type_params(T))]`.
+        let a_generic_idx = generic_idx_of_field(a, &cx.a_params);
+        let b_generic_idx = generic_idx_of_field(b, &cx.b_params);
+        if a_generic_idx.is_some() || b_generic_idx.is_some() {
+            return a_generic_idx == b_generic_idx;
         }
+        cx.used_types_equal(a.ty.id, b.ty.id, false, visited)
     };
 
     // Check that all of the fields of some type are equal.
     #[rustfmt::skip]
-    let mut fields_equal = |
+    let fields_equal = |
         a: &[Field<PortableForm>],
-        a_params: &GenericsList,
         b: &[Field<PortableForm>],
-        b_params: &GenericsList,
+        visited: &mut HashSet<(u32, u32)>
     | -> bool {
         if a.len() != b.len() {
             return false;
         }
-        a.iter().zip(b.iter()).all(|(a, b)| {
-           compare_fields(a, a_params, b, b_params)
-        })
+        a.iter().zip(b.iter()).all(|(a, b)| compare_fields(a, b, visited))
     };
 
     // Check that the shape of the types and contents are equal.
     match (&a_ty.type_def, &b_ty.type_def) {
         (TypeDef::Composite(a), TypeDef::Composite(b)) => {
-            let (a_params, b_params) = calc_params();
-            fields_equal(&a.fields, &a_params, &b.fields, &b_params)
+            fields_equal(&a.fields, &b.fields, visited)
         }
         (TypeDef::Variant(a), TypeDef::Variant(b)) => {
-            let (a_params, b_params) = calc_params();
             a.variants.len() == b.variants.len()
                 && a.variants.iter().zip(b.variants.iter()).all(|(a, b)| {
-                    a.name == b.name && fields_equal(&a.fields, &a_params, &b.fields, &b_params)
+                    a.name == b.name && fields_equal(&a.fields, &b.fields, visited)
                 })
         }
-        (TypeDef::Sequence(a), TypeDef::Sequence(b)) => {
-            let (a_params, b_params) = calc_params();
-            types_equal_recurse(a.type_param.id, &a_params, b.type_param.id, &b_params)
+        // Other types with a path (not something scale-info generates, but it is possible):
+        _ => cx.contents_equal(a_ty, b_ty, visited),
+    }
+}
+
+/// The two types we compare in [`types_equal_inner`], or rather their generic params.
+struct EqContext<'a> {
+    a_params: GenericsList,
+    b_params: GenericsList,
+    types: &'a PortableRegistry,
+}
+
+impl EqContext<'_> {
+    /// Compares two types that are used in the same place inside the two types we look at.
+    /// If `check_generics` is false, we already know that the IDs themselves are not generic params.
+    fn used_types_equal(
+        &self,
+        a: u32,
+        b: u32,
+        check_generics: bool,
+        visited: &mut HashSet<(u32, u32)>,
+    ) -> bool {
+        // If either ID maps to a generic param, the other one has to map to the same param
+        // (eg Vec<bool> and Vec<u8> have different type IDs but may be the same type if the
+        // bool+u8 line up to generic params).
+        if check_generics {
+            let a_generic_idx = self.a_params.index_for_type_id(a);
+            let b_generic_idx = self.b_params.index_for_type_id(b);
+            if a_generic_idx.is_some() || b_generic_idx.is_some() {
+                return a_generic_idx == b_generic_idx;
+            }
         }
-        (TypeDef::Array(a), TypeDef::Array(b)) => {
-            let (a_params, b_params) = calc_params();
-            a.len == b.len
-                && types_equal_recurse(a.type_param.id, &a_params, b.type_param.id, &b_params)
-        }
-        (TypeDef::Tuple(a), TypeDef::Tuple(b)) => {
-            let (a_params, b_params) = calc_params();
-            a.fields.len() == b.fields.len()
-                && a.fields
+
+        let a_ty = self.types.resolve(a).expect("type a should exist in registry");
+        let b_ty = self.types.resolve(b).expect("type b should exist in registry");
+
+        if a_ty.path.is_empty() && b_ty.path.is_empty() {
+            // No paths; codegen writes out the contents of such a type (`Vec<..>`, `(.., ..)`, ...).
+            self.contents_equal(a_ty, b_ty, visited)
+        } else {
+            // Codegen refers to such a type by its path and generic params. So the params
+            // have to line up, and the types have to be equal themselves.
+            a_ty.type_params.len() == b_ty.type_params.len()
+                && a_ty
+                    .type_params
                     .iter()
-                    .zip(b.fields.iter())
-                    .all(|(a, b)| types_equal_recurse(a.id, &a_params, b.id, &b_params))
+                    .zip(b_ty.type_params.iter())
+                    .all(|(a, b)| match (a.ty, b.ty) {
+                        (Some(a), Some(b)) => self.used_types_equal(a.id, b.id, true, visited),
+                        (None, None) => true,
+                        _ => false,
+                    })
+                && types_equal_inner(a, b, self.types, visited)
         }
-        (TypeDef::Primitive(a), TypeDef::Primitive(b)) => a == b,
-        (TypeDef::Compact(a), TypeDef::Compact(b)) => {
-            let (a_params, b_params) = calc_params();
-            types_equal_recurse(a.type_param.id, &a_params, b.type_param.id, &b_params)
+    }
+
+    /// Compares the contents of two types which are not structs or enums.
+    fn contents_equal(
+        &self,
+        a_ty: &Type<PortableForm>,
+        b_ty: &Type<PortableForm>,
+        visited: &mut HashSet<(u32, u32)>,
+    ) -> bool {
+        match (&a_ty.type_def, &b_ty.type_def) {
+            (TypeDef::Sequence(a), TypeDef::Sequence(b)) => {
+                self.used_types_equal(a.type_param.id, b.type_param.id, true, visited)
+            }
+            (TypeDef::Array(a), TypeDef::Array(b)) => {
+                a.len == b.len
+                    && self.used_types_equal(a.type_param.id, b.type_param.id, true, visited)
+            }
+            (TypeDef::Tuple(a), TypeDef::Tuple(b)) => {
+                a.fields.len() == b.fields.len()
+                    && a.fields
+                        .iter()
+                        .zip(b.fields.iter())
+                        .all(|(a, b)| self.used_types_equal(a.id, b.id, true, visited))
+            }
+            (TypeDef::Primitive(a), TypeDef::Primitive(b)) => a == b,
+            (TypeDef::Compact(a), TypeDef::Compact(b)) => {
+                self.used_types_equal(a.type_param.id, b.type_param.id, true, visited)
+            }
+            (TypeDef::BitSequence(a), TypeDef::BitSequence(b)) => {
+                let order_equal = self.used_types_equal(
+                    a.bit_order_type.id,
+                    b.bit_order_type.id,
+                    true,
+                    visited,
+                );
+                let store_equal = self.used_types_equal(
+                    a.bit_store_type.id,
+                    b.bit_store_type.id,
+                    true,
+                    visited,
+                );
+                order_equal && store_equal
+            }
+            // Type defs don't match (or this is a struct/enum without a path);
+            // types aren't the same unless they are identical!
+            _ => a_ty == b_ty,
         }
-        (TypeDef::BitSequence(a), scale_info::TypeDef::BitSequence(b)) => {
-            let (a_params, b_params) = calc_params();
-            let order_equal = types_equal_recurse(
-                a.bit_order_type.id,
-                &a_params,
-                b.bit_order_type.id,
-                &b_params,
-            );
-            let store_equal = types_equal_recurse(
-                a.bit_store_type.id,
-                &a_params,
-                b.bit_store_type.id,
-                &b_params,
-            );
-            order_equal && store_equal
-        }
-        // Type defs don't match; types aren't the same!
-        _ => false,
     }
 }
 
@@ -319,13 +347,13 @@ mod generics_list {
                     .and_then(|prev| prev.index_for_type_id(type_id))
             })
         }
-        /// Returns the unique index of a generic type name, or None if not found.
-        pub fn index_for_type_name(&self, name: &str) -> Option<usize> {
+        /// Returns the unique index of a generic with this type ID and name, or None if not found.
+        pub fn index_for_type_id_and_name(&self, type_id: u32, name: &str) -> Option<usize> {
             let maybe_index = self
                 .inner
                 .generics_by_id
                 .iter()
-                .position(|(_, type_name)| *type_name == name)
+                .position(|(id, type_name)| *id == type_id && *type_name == name)
                 .map(|index| self.inner.start_idx + index);
 
             // if index isn't found here, go back to the previous list and try again.
@@ -333,7 +361,7 @@ mod generics_list {
                 self.inner
                     .previous
                     .as_ref()
-                    .and_then(|prev| prev.index_for_type_name(name))
+                    .and_then(|prev| prev.index_for_type_id_and_name(type_id, name))
             })
         }
 
